@@ -1,13 +1,114 @@
 /-
-  Driver.OpsC16 — protocol operations for property C16 (filled in by the C16 work package).
-  Contract: `handleC16 op` returns the parser for operation `op` or `none` if `op` is not one of
-  this property's operations.
+  Driver.OpsC16 — protocol operations for property C16 (mesh equality over all representations).
+
+  any  :=  E <rel> <abs> mesh                                   explicit Mesh
+        |  P <rel> <abs> mesh                                   PermutedMesh (the view's data)
+        |  R <rel> <abs> e0 e1 e2 <n> x… <n> y… <n> z…          RectilinearMesh (ordinates as given)
+        |  S <rel> <abs> e0 e1 e2 <dim> <np> c…                 StructuredMesh
+        |  I <rel> <abs> e0 e1 e2 o0 o1 o2 s0 s1 s2 b00 … b22   ImageMesh
+  (tolerances and coordinates in units of 2^-1074)
+
+  c16eq  any any      ->  hyp=<0|1> model=<T|F|E> spec=<T|F|->  kind=<short-cut|generic>
+  c16gen any mesh     ->  gen=<1|0|->  tol=<units|none>
+  c16compat n1 n2     ->  model=<0|1> id=<0|1|->
 -/
-import Driver.Proto
-namespace Fc.Drv
+import Driver.ProtoMesh
+import FcModel.Spec.C16
+namespace Fc.Drv.C16
+open Fc Fc.Drv Fc.C03 Fc.C16
+
+def pTriple {α} (p : P α) : P (List α) := pMany p 3
+
+def pAnyMesh : P AnyMesh := do
+  let k ← tok
+  let rel ← pNat
+  let abs ← pNat
+  match k with
+  | "E" => do let m ← pMesh; pure (.explicit ⟨m, rel, abs⟩)
+  | "P" => do let m ← pMesh; pure (.permuted ⟨m, rel, abs⟩)
+  | "R" => do
+      let ext ← pTriple pNat
+      let xs ← pList pInt
+      let ys ← pList pInt
+      let zs ← pList pInt
+      pure (.rect ⟨ext, [xs, ys, zs], rel, abs⟩)
+  | "S" => do
+      let ext ← pTriple pNat
+      let dim ← pNat
+      let np ← pNat
+      let cs ← pMany pInt (np * dim)
+      pure (.struct ⟨ext, dim, chunk dim cs np, rel, abs⟩)
+  | "I" => do
+      let ext ← pTriple pNat
+      let o ← pTriple pInt
+      let s ← pTriple pInt
+      let b ← pMany pInt 9
+      pure (.image ⟨ext, o, s, chunk 3 b 3, rel, abs⟩)
+  | _ => failure
+
+/-- the decidable hypothesis under which the model speaks for one object -/
+def anyOk (a : AnyMesh) : Bool := a.ok
+
+/-- the generic path needs the generated points of image meshes: axis-aligned basis, no overflow -/
+def genericOk : AnyMesh → Bool
+  | .image g => g.axisBasis && g.points.isSome
+  | _ => true
+
+def specOf (a b : AnyMesh) : Option Bool :=
+  match a, b with
+  | .image x, .image y => some (imageParamsWithin x.rel x.abs x y)
+  | .rect x, .rect y => some (rectParamsWithin x.rel x.abs x y)
+  | .struct x, .struct y => some (structParamsWithin x.rel x.abs x y)
+  | .permuted x, y => y.view.map fun v => meshEqualSpec x.rel x.abs x.mesh v.mesh
+  | x, y =>
+    match x.view, y.view with
+    | some u, some v => some (meshEqualSpec (min u.rel v.rel) (min u.abs v.abs) u.mesh v.mesh)
+    | _, _ => none
+
+def opC16Eq : P String := do
+  let a ← pAnyMesh
+  let b ← pAnyMesh
+  let sc := shortcut a b
+  let hyp := anyOk a && anyOk b && (sc || (genericOk a && genericOk b))
+  let m := equals a b
+  let spec := match specOf a b with
+    | some v => showVerdict (.ok v)
+    | none => "-"
+  pure s!"hyp={showBool hyp} model={showVerdict m} spec={if hyp then spec else "-"} kind={if sc then "short-cut" else "generic"}"
+
+def showOptNat : Option Nat → String
+  | some u => toString u
+  | none => "none"
+
+def opC16Gen : P String := do
+  let a ← pAnyMesh
+  let m ← pMesh
+  let gen := match a.view with
+    | some v => if genericOk a then showBool (v.mesh == m) else "-"
+    | none => "-"
+  let tol := match a with
+    | .explicit x => meshDefaultAbsTol x.mesh
+    | .permuted x => meshDefaultAbsTol x.mesh
+    | .rect g => g.defaultAbsTol
+    | .struct g => meshDefaultAbsTol g.toMesh
+    | .image g => g.defaultAbsTol
+  pure s!"gen={gen} tol={showOptNat tol}"
+
+def opC16Compat : P String := do
+  let n1 ← tok
+  let n2 ← tok
+  let idv := match cellTypeId n1, cellTypeId n2 with
+    | some i, some j => showBool (compatibleId i j)
+    | _, _ => "-"
+  pure s!"model={showBool (compatible n1 n2)} id={idv}"
 
 def handleC16 (op : String) : Option (P String) :=
   match op with
+  | "c16eq" => some opC16Eq
+  | "c16gen" => some opC16Gen
+  | "c16compat" => some opC16Compat
   | _ => none
 
-end Fc.Drv
+end Fc.Drv.C16
+
+def Fc.Drv.handleC16 := Fc.Drv.C16.handleC16
